@@ -2,7 +2,7 @@
    Statements only; each is closed by [exact] of a lemma proved in Strconv/*Proofs.v. *)
 From Coq Require Import Reals Floats.SpecFloat.
 From Flocq Require Import Core.Core IEEE754.BinarySingleNaN.
-From Verif Require Import Common.Base Strconv.Model Strconv.FModel Strconv.IntProofs Strconv.NumProofs Strconv.DecProofs Strconv.ScanProofs Strconv.FloatProofs.
+From Verif Require Import Common.Base Strconv.Model Strconv.FModel Strconv.IntProofs Strconv.NumProofs Strconv.DecProofs Strconv.ScanProofs Strconv.FloatProofs Strconv.Legacy.
 Open Scope Z_scope.
 
 (* ParseInt, for EVERY byte string: written as sign ++ digits ++ rest (sign = "", "+" or "-";
@@ -129,3 +129,27 @@ Theorem append_float_shape_partial : forall b spare f prec,
   (forall s, f = S754_zero s -> append_float b spare f prec = Ok (b ++ [48])).
 Proof. exact append_float_trivial_proof. Qed.
 Print Assumptions append_float_shape_partial.
+
+(* ParseNumber is total: for every byte string and every pair of symbols it does not panic, does not
+   run out of the model's fuel, and the reported length lies within the input. *)
+Theorem parse_number_total : forall b gs ds,
+  exists num dec n, parse_number b gs ds = Ok (num, dec, n) /\ 0 <= n <= len b /\ 0 <= dec.
+Proof. exact parse_number_total_proof. Qed.
+Print Assumptions parse_number_total.
+
+(* The code BEFORE the repairs (kept in Strconv/Legacy.v) did not satisfy the statements above:
+   AppendNumber(123456, 0, 3, U+00A0, ',') began with a NUL byte, AppendDecimal(-0.096, 6) lost its sign. *)
+Theorem append_number_legacy_refuted :
+  exists b spare num dec gsize gs ds out,
+    min_i64 <= num <= max_i64 /\ 0 <= dec /\ valid_rune gs /\ valid_rune ds /\
+    append_number_legacy b spare num dec gsize gs ds = Ok out /\
+    out <> b ++ render num dec gsize gs ds /\ hd 1 out = 0.
+Proof. exact Legacy.append_number_legacy_refuted. Qed.
+Print Assumptions append_number_legacy_refuted.
+
+Theorem append_decimal_legacy_refuted :
+  exists num dec out,
+    min_i64 < num <= max_i64 /\ num <> 0 /\ 0 <= dec <= 18 /\
+    ad_print_legacy [] [] num dec = Ok out /\ out <> dec_text num dec /\ out = [48; 46; 48; 57; 54].
+Proof. exact Legacy.append_decimal_legacy_refuted. Qed.
+Print Assumptions append_decimal_legacy_refuted.
